@@ -38,6 +38,9 @@ def explore(ctx):
             for s in d:
                 if rng.random() < 0.5:
                     s.level, s.descendants, s.ancestor
+            if rng.random() < 0.6:
+                # dendrogram-level views read before the prune must not survive it
+                d.leaves, d.trunk, d.all_structures, len(d), list(d)
             cur_delta = c.get('delta', 0)
             for k in range(rng.randint(1, 3)):
                 step = dc.rand_prune_step(rng, c, cur_delta)
@@ -51,6 +54,8 @@ def explore(ctx):
                 if rng.random() < 0.5:
                     for s in d:
                         s.level, s.descendants
+                if rng.random() < 0.5:
+                    d.leaves, d.all_structures, list(d)
             variants = [('pruned', d)]
         if rng.random() < 0.35:
             fmt = rng.choice(['hdf5', 'fits'])
